@@ -7,7 +7,7 @@ from common import *
 ID = 'C03'
 PKG = 'version'
 V = MOD + '/version.'
-ROOTS = [V + n for n in ('VerifC03Round', 'VerifC03Grammar', 'VerifC03Reject')]
+ROOTS = [V + n for n in ('VerifC03Round', 'VerifC03Grammar', 'VerifC03Reject', 'VerifC03Reuse')]
 UPC = DIGITS + ALPHA + b'.+~'
 BOUNDS = {'quick': dict(N=5, U=3, R=2, E=3), 'thorough': dict(N=7, U=4, R=3, E=3)}
 META = dict(
@@ -17,7 +17,7 @@ META = dict(
                        'strconv.ParseInt', 'strconv.ParseUint'],
     stubs=['fmt.Sprintf (model of %d/%s)', 'fmt.Errorf (opaque non-nil error)', 'encoding/json.Marshal (contract for strings without escapes)',
            'strings.Index/LastIndex (position case split)', 'unicode.IsSpace / IsDigit (Latin-1 + White_Space table)', 'utf8 decoding (complete case split)'],
-    bounds={'quick': 'round trip: every ASCII string of length <= 5; grammar templates: epoch 0-3 symbolic digits (+2^31-1, 2^63-1), upstream <= 3, revision <= 2, optional one-byte whitespace at either end; reject classes with symbolic witnesses of length <= 5',
+    bounds={'quick': 'round trip: every ASCII string of length <= 5; grammar templates: epoch 0-3 symbolic digits (+2^31-1, 2^63-1), upstream <= 3, revision <= 2, optional one-byte whitespace at either end; reject classes with symbolic witnesses of length <= 5; receivers re-used for a second UnmarshalControl / UnmarshalText (first string <= 5, second <= 3 characters over [0-9:-.a])',
             'thorough': 'round trip: every ASCII string of length <= 7; grammar: upstream <= 4, revision <= 3'},
     outside_claim=['strings longer than the bound', 'non-ASCII input in the round-trip query (covered by the reject class for characters outside the alphabet and by C18)'],
     assumptions=['equality of versions is field-wise (Epoch, Version, Revision)'])
@@ -50,6 +50,9 @@ def jobs(tier):
                     if isinstance(e, int) and e > b['E']:
                         continue
                     js.append(dict(name='gram_w%d%d_e%s_u%d_r%s' % (w1, w2, e if not isinstance(e, bytes) else e.decode(), u, r), kind='gram', w1=w1, w2=w2, e=e, u=u, r=r))
+    for n1 in (3, 4, 5):
+        for n2 in (1, 2, 3):
+            js.append(dict(name='reuse_%d_%d' % (n1, n2), kind='reuse', n1=n1, n2=n2, n=0))
     for cl in ('epoch_nondigit', 'negative', 'oversized', 'embedded_ws', 'nothing_after_colon', 'first_not_digit', 'bad_char', 'empty'):
         js.append(dict(name='reject_' + cl, kind='reject', cl=cl))
     js.sort(key=lambda j: -j.get('n', 0))
@@ -67,6 +70,10 @@ def run_job(env, job):
         for pos, ci in enumerate(job['part']):
             assume.append(in_set(s[pos], cls[ci]))
         return run_harness(env, PKG, 'VerifC03Round', [s], assume, unwind=n + 24, sample='all ASCII strings of length %d, first bytes in classes %r' % (n, job['part']))
+    if k == 'reuse':
+        s1, s2 = symstr('p', job['n1']), symstr('q', job['n2'])
+        assume = [in_set(c, b'0123456789:-.a') for c in list(s1) + list(s2)]
+        return run_harness(env, PKG, 'VerifC03Reuse', [s1, s2], assume, unwind=64, sample='a receiver that holds a version of %d characters over [0-9:-.a] re-used for one of %d characters' % (job['n1'], job['n2']))
     if k == 'gram':
         w1, w2 = symstr('w1', job['w1']), symstr('w2', job['w2'])
         assume = [in_set(c, WS) for c in list(w1) + list(w2)]
